@@ -45,11 +45,12 @@ type Branch struct {
 }
 
 type Graph struct {
-	Mode     string      `json:"mode"` // pregel | dag
-	MaxSteps int         `json:"maxSteps,omitempty"`
-	Nodes    []Node      `json:"nodes"`
-	Edges    [][2]string `json:"edges"`
-	Branches []Branch    `json:"branches,omitempty"`
+	Mode        string      `json:"mode"` // pregel | dag
+	MaxSteps    int         `json:"maxSteps,omitempty"`
+	NegMaxSteps bool        `json:"negMaxSteps,omitempty"` // compile option WithMaxRunSteps(-1): the run must refuse to start
+	Nodes       []Node      `json:"nodes"`
+	Edges       [][2]string `json:"edges"`
+	Branches    []Branch    `json:"branches,omitempty"`
 }
 
 type M = map[string]any
@@ -166,7 +167,9 @@ func CompileOpts(g *Graph) []compose.GraphCompileOption {
 	if g.Mode == "dag" {
 		opts = append(opts, compose.WithNodeTriggerMode(compose.AllPredecessor))
 	}
-	if g.MaxSteps > 0 {
+	if g.NegMaxSteps && g.Mode != "dag" {
+		opts = append(opts, compose.WithMaxRunSteps(-1))
+	} else if g.MaxSteps > 0 {
 		opts = append(opts, compose.WithMaxRunSteps(g.MaxSteps))
 	}
 	return opts
@@ -344,6 +347,9 @@ func Classify(err error) ResultJ {
 	case errors.As(err, &be):
 		id := be.ID
 		r.Err = &ErrJ{C: "branch", ID: &id}
+	case strings.Contains(err.Error(), "max run steps limit must be at least 1"):
+		id := 9996
+		r.Err = &ErrJ{C: "user", ID: &id}
 	case errors.Is(err, compose.ErrExceedMaxSteps):
 		r.Err = &ErrJ{C: "maxSteps"}
 	case strings.Contains(err.Error(), "unknown node: end"):
